@@ -3,8 +3,8 @@ package main
 // C15 — credential cache files of every format version parse to what was written.
 
 import (
-	"go/types"
 	"fmt"
+	"go/types"
 	"strings"
 
 	"golang.org/x/tools/go/ssa"
